@@ -130,19 +130,22 @@ impl Clone for HTLCOutputInCommitment { #[verifier::external_body] fn clone(&sel
 impl HTLCOutputInCommitment {
     #[verifier::external_body] pub fn to_bitcoin_amount(&self) -> (r: Amount) ensures r.0 == self.amount_msat / 1000 { unimplemented!() }
 }
-pub struct RevokedHTLCOutput { pub htlc: HTLCOutputInCommitment }
+// `seen_at`: the height handed to build(): the height the claim is recorded as created at (a reorg below it drops the claim)
+pub struct RevokedHTLCOutput { pub htlc: HTLCOutputInCommitment, pub seen_at: u32 }
 impl RevokedHTLCOutput {
     #[verifier::external_body] pub fn build(per_commitment_point: PublicKey, per_commitment_key: SecretKey, htlc: HTLCOutputInCommitment, channel_parameters: ChannelTransactionParameters, height: u32) -> (r: RevokedHTLCOutput)
-        ensures r.htlc == htlc { unimplemented!() }
+        ensures r.htlc == htlc, r.seen_at == height { unimplemented!() }
 }
-pub struct RevokedOutput { pub amount: Amount }
+pub struct RevokedOutput { pub amount: Amount, pub seen_at: u32 }
 impl RevokedOutput {
     #[verifier::external_body] pub fn build(per_commitment_point: PublicKey, per_commitment_key: SecretKey, amount: Amount, channel_parameters: ChannelTransactionParameters, height: u32) -> (r: RevokedOutput)
-        ensures r.amount == amount { unimplemented!() }
+        ensures r.amount == amount, r.seen_at == height { unimplemented!() }
 }
 pub enum PackageSolvingData { RevokedHTLCOutput(RevokedHTLCOutput), RevokedOutput(RevokedOutput), Other }
 pub struct CounterpartyCommitmentParameters { pub on_counterparty_tx_csv: u16 }
-pub struct JusticeMonitor { pub counterparty_commitment_params: CounterpartyCommitmentParameters }
+// best_block: present so that a change that reads the monitor's tip instead of the confirmation height is verified, not refused
+pub struct BestBlock { pub height: u32 }
+pub struct JusticeMonitor { pub counterparty_commitment_params: CounterpartyCommitmentParameters, pub best_block: BestBlock }
 #[verifier::external_body] pub fn usize_to_u32(x: usize) -> (r: u32) requires x <= u32::MAX ensures r == x { unimplemented!() }
 // PackageTemplate::build_package (chain/package.rs) builds a one-input package for (txid, vout) with the given counterparty_spendable_height: recorded as is
 pub struct PackageTemplate { pub txid: Txid, pub vout: u32, pub data: PackageSolvingData, pub counterparty_spendable_height: u32 }
@@ -150,12 +153,13 @@ impl PackageTemplate {
     #[verifier::external_body] pub fn build_package(txid: Txid, vout: u32, input_solving_data: PackageSolvingData, counterparty_spendable_height: u32) -> (r: PackageTemplate)
         ensures r.txid == txid, r.vout == vout, r.data == input_solving_data, r.counterparty_spendable_height == counterparty_spendable_height { unimplemented!() }
 }
+impl JusticeMonitor {
 //@extract lightning/src/chain/channelmonitor.rs :: impl ChannelMonitorImpl :: fn check_spend_counterparty_transaction
 //@slice R15
     for (htlc, _) in per_commitment_claimable_data { $body:any }
 //@with
     // returns false where the source gives up on the whole transaction (stored HTLC data inconsistent with the confirmed transaction)
-    fn justice_claim_for_htlc(htlc: &HTLCOutputInCommitment, commitment_tx: &Transaction, commitment_txid: Txid, height: u32, per_commitment_point: PublicKey, per_commitment_key: SecretKey,
+    fn justice_claim_for_htlc(&self, htlc: &HTLCOutputInCommitment, commitment_tx: &Transaction, commitment_txid: Txid, height: u32, per_commitment_point: PublicKey, per_commitment_key: SecretKey,
         funding_spent: &FundingScope, claimable_outpoints: &mut Vec<PackageTemplate>) -> bool {
         $body
         true
@@ -170,12 +174,16 @@ impl PackageTemplate {
         && final(claimable_outpoints)@.drop_last() == old(claimable_outpoints)@
         && ({ let p = final(claimable_outpoints)@.last();
               p.txid == commitment_txid && p.vout == htlc.transaction_output_index->Some_0
-              && p.data == PackageSolvingData::RevokedHTLCOutput(RevokedHTLCOutput { htlc: *htlc })
+              && p.data == PackageSolvingData::RevokedHTLCOutput(RevokedHTLCOutput { htlc: *htlc, seen_at: height })
               && p.counterparty_spendable_height == (if htlc.offered { htlc.cltv_expiry } else { height }) })
         && (htlc.transaction_output_index->Some_0 as int) < commitment_tx.output@.len()
         && commitment_tx.output@[htlc.transaction_output_index->Some_0 as int].value.0 == htlc.amount_msat / 1000,
     htlc.transaction_output_index is None ==> r && final(claimable_outpoints)@ == old(claimable_outpoints)@,
     !r ==> final(claimable_outpoints)@ == old(claimable_outpoints)@,
+//@mutant justice_claim_recorded_as_created_at_the_monitors_tip
+    htlc.clone(), funding_spent.channel_parameters.clone(), height, );
+//@with
+    htlc.clone(), funding_spent.channel_parameters.clone(), self.best_block.height, );
 //@mutant received_htlc_claim_deadline_taken_from_its_expiry
     let counterparty_spendable_height = if htlc.offered { htlc.cltv_expiry } else { height };
 //@with
@@ -185,6 +193,7 @@ impl PackageTemplate {
 //@with
     commitment_txid, 0,
 //@end
+}
 
 impl JusticeMonitor {
 //@extract lightning/src/chain/channelmonitor.rs :: impl ChannelMonitorImpl :: fn check_spend_counterparty_transaction
@@ -208,7 +217,7 @@ impl JusticeMonitor {
     outp.script_pubkey == revokeable_p2wsh ==> final(claimable_outpoints)@.len() == old(claimable_outpoints)@.len() + 1
         && final(claimable_outpoints)@.drop_last() == old(claimable_outpoints)@
         && ({ let p = final(claimable_outpoints)@.last();
-              p.txid == commitment_txid && p.vout == idx && p.data == PackageSolvingData::RevokedOutput(RevokedOutput { amount: outp.value })
+              p.txid == commitment_txid && p.vout == idx && p.data == PackageSolvingData::RevokedOutput(RevokedOutput { amount: outp.value, seen_at: height })
               && p.counterparty_spendable_height == height + self.counterparty_commitment_params.on_counterparty_tx_csv })
         && r == Some((idx as u32, outp.value)),
     outp.script_pubkey != revokeable_p2wsh ==> final(claimable_outpoints)@ == old(claimable_outpoints)@ && r == to_counterparty_output_info_,
